@@ -272,7 +272,7 @@ pub fn core_result<K: Kit>(sc: &PyScenario) -> Value {
         }
     }
     json!({"calls": out_calls, "valid_calls": calls.get(), "valid_hash": hash.get(), "goal_pred_calls": goal.pred_calls.get(), "goal_sample_calls": goal.sample_calls.get(),
-        "seen_first_coordinate": seen.borrow().iter().map(|x| x[0].to_bits()).collect::<Vec<u64>>()})
+        "seen_states": seen.borrow().iter().map(|x| x.iter().map(|c| c.to_bits()).collect::<Vec<u64>>()).collect::<Vec<_>>()})
 }
 
 fn quat(axis: [f64; 3], deg: f64) -> [f64; 4] {
@@ -329,6 +329,17 @@ pub fn scenarios(tier: &str) -> Vec<PyScenario> {
             goal_preds: vec![Pred::Range { i: 0, lo: 1.4, hi: 1.6 }],
             goal_samples: vec![V::So2(1.5), V::So2(1.5625)],
             worlds: vec![vec![], vec![Pred::Range { i: 0, lo: -0.5, hi: 0.0 }], vec![Pred::Range { i: 0, lo: 2.5, hi: 3.0 }, Pred::Range { i: 0, lo: -0.25, hi: 0.25 }], vec![Pred::Range { i: 0, lo: -1.0, hi: -0.75 }]],
+            unit: 0.3,
+        },
+        // coarse resolution: a motion shorter than one check step is validated at its raw end state only,
+        // so uncanonicalised samples reach the checker as themselves
+        Variant {
+            kit: "SO2",
+            spec: Spec::So2 { bounds: Some((-2.5, 2.8)), frac: Some(1.0) },
+            start: V::So2(-2.0),
+            goal_preds: vec![Pred::Range { i: 0, lo: 1.4, hi: 1.6 }],
+            goal_samples: vec![V::So2(1.5), V::So2(1.5625)],
+            worlds: vec![vec![], vec![Pred::Range { i: 0, lo: -0.5, hi: -0.25 }], vec![Pred::Range { i: 0, lo: 2.5, hi: 3.0 }, Pred::Range { i: 0, lo: -0.25, hi: 0.0 }], vec![Pred::Range { i: 0, lo: -1.0, hi: -0.75 }]],
             unit: 0.3,
         },
         Variant {
@@ -397,7 +408,7 @@ pub fn scenarios(tier: &str) -> Vec<PyScenario> {
                     for &seed in &seeds {
                         let step = v.unit * sm * if planner == "PRM" { 3.0 } else { 1.0 };
                         let base = PyScenario {
-                            id: format!("{}/{}/w{wi}/p{pi}/s{seed}", if matches!(v.spec, Spec::So2 { bounds: Some(_), .. }) { "SO2b" } else { v.kit }, planner),
+                            id: format!("{}/{}/w{wi}/p{pi}/s{seed}", if matches!(v.spec, Spec::So2 { bounds: Some(_), frac: Some(_) }) { "SO2bf" } else if matches!(v.spec, Spec::So2 { bounds: Some(_), .. }) { "SO2b" } else { v.kit }, planner),
                             kit: v.kit,
                             spec: v.spec.clone(),
                             frac: None,
@@ -764,21 +775,38 @@ pub fn run_c19(tier: &'static str) -> i32 {
         if sc.id.contains("/h-") || sc.id.contains("/at-goal") || sc.id.contains("/frac") || !sc.id.contains("/p0/") || sc.planner == "PRM" {
             continue;
         }
-        let seen: Vec<u64> = c["expected"]["seen_first_coordinate"].as_array().map(|a| a.iter().filter_map(|x| x.as_u64()).collect()).unwrap_or_default();
+        let seen: Vec<Vec<f64>> = c["expected"]["seen_states"].as_array().map(|a| a.iter().map(|st| st.as_array().map(|v| v.iter().filter_map(|x| x.as_u64()).map(f64::from_bits).collect()).unwrap_or_default()).collect()).unwrap_or_default();
         if seen.len() < 8 {
             continue;
         }
+        // the coordinate the edge is put on: the angle where the state has one (a value the wrappers
+        // canonicalise), else the first coordinate
+        let ci = match sc.kit {
+            "Compound" | "SE2" => 2,
+            _ => 0,
+        };
+        let has_angle = matches!(sc.kit, "SO2" | "Compound" | "SE2");
+        // prefer values that a second canonicalisation would move (they expose a wrapper that
+        // re-normalises what it passes on); then values spread over the run
+        let mut picks: Vec<f64> = Vec::new();
+        if has_angle {
+            picks.extend(seen.iter().map(|x| x[ci]).filter(|a| SO2State::new(*a).value.to_bits() != a.to_bits()).take(3));
+        }
+        for frac in [0.3, 0.55, 0.8] {
+            if picks.len() < 3 {
+                picks.push(seen[((seen.len() as f64) * frac) as usize][ci]);
+            }
+        }
         let mut start0 = Vec::new();
         flatten(&sc.start, &mut start0);
-        for (k, frac) in [(0usize, 0.3), (1, 0.55), (2, 0.8)] {
-            let a = f64::from_bits(seen[((seen.len() as f64) * frac) as usize]);
+        for (k, a) in picks.into_iter().enumerate() {
             for (side, lo, hi) in [("lo", a, a + 0.02), ("hi", a - 0.02, a)] {
-                if !a.is_finite() || (start0[0] >= lo && start0[0] <= hi) {
+                if !a.is_finite() || (start0[ci] >= lo && start0[ci] <= hi) {
                     continue;
                 }
                 let mut x = sc.clone();
                 x.id = format!("{}/knife{k}{side}", sc.id);
-                x.obstacles.push(Pred::Range { i: 0, lo, hi });
+                x.obstacles.push(Pred::Range { i: ci, lo, hi });
                 let mut j = x.json();
                 j["expected"] = core_for(&x);
                 knife.push(j);
@@ -793,6 +821,15 @@ pub fn run_c19(tier: &'static str) -> i32 {
     }
     let ok = cases.iter().map(|c| c["expected"]["calls"].as_array().map(|a| a.iter().filter(|x| x["result"] == "ok").count()).unwrap_or(0)).sum::<usize>();
     rep.count("core_paths", ok as u64);
+    let cases: Vec<Value> = cases
+        .into_iter()
+        .map(|mut c| {
+            if let Some(e) = c.get_mut("expected").and_then(|e| e.as_object_mut()) {
+                e.remove("seen_states");
+            }
+            c
+        })
+        .collect();
     let input = json!({"tier": tier, "scenarios": cases, "wrappers": wrapper_cases()});
     if let Some(r) = run_driver("c19", &input, &mut rep) {
         absorb("C19", &r, &mut rep);
